@@ -47,6 +47,9 @@ def streams(rng, tier, boost):
     # the known finding is exercised once it is listed in known_findings.json (until then the stream would fail the check)
     if any(k.get('id') == CLASH_ID for k in core.load_known(ID)) or os.environ.get('VERIF_C14_CLASH'):
         out += clash_cases()
+    listed = {k.get('id') for k in core.load_known(ID)}
+    if (ROW_ID in listed and THM_ID in listed) or os.environ.get('VERIF_C14_MATH'):
+        out += math_cases()
     return out
 
 
@@ -61,6 +64,23 @@ def clash_cases():
                '\\subsection{zt2x}\nzw4x \\index{zk1x}\n\\subsection{zt3x}\nzw5x\n\\end{document}\n' % n)
         cfg = dict(renderer='html5', split=1, filename=rd.TEMPLATES[0], bad=None, base='', tocdepth=3, tocnonfiles=False, crumbs=False, localtoc=False)
         out.append(('label-like-generated-id', {'doc': {'raw': src}, 'cfg': cfg}))
+    return out
+
+
+ROW_ID = 'C14-html5-eqnarray-row-has-no-id'
+THM_ID = 'C14-xhtml-theorem-has-no-id'
+
+
+def math_cases():
+    """\\ref to a labelled eqnarray row (HTML5: the whole array is one MathJax source, rows are no elements) and to a theorem (XHTML has no
+    theorem template: the environment is printed as its bare content): the known findings ROW_ID / THM_ID"""
+    out = []
+    src = ('\\documentclass{article}\n\\usepackage{amsthm}\n\\newtheorem{thm}{Theorem}\n\\begin{document}\n\\section{zt1x}\n'
+           '\\begin{eqnarray}\na &=& b \\label{eq1}\\\\\nc &=& d \\label{eq2}\n\\end{eqnarray}\n'
+           '\\begin{thm}\\label{t1} zw1x \\end{thm}\nzw2x %s\n\\end{document}\n')
+    for rname, ref in (('html5', '\\ref{eq2}'), ('xhtml', '\\ref{t1}')):
+        cfg = dict(renderer=rname, split=1, filename=rd.TEMPLATES[0], bad=None, base='', tocdepth=3, tocnonfiles=False, crumbs=False, localtoc=False)
+        out.append(('math-targets', {'doc': {'raw': src % ref}, 'cfg': cfg}))
     return out
 
 
@@ -199,6 +219,9 @@ def oracle(case, rec):
                 n = by_id.get(frag)
                 what = ('the %s' % n[8]) if n is not None else 'nothing in the document'
                 key = 'C14:dangling-fragment:' + (n[8] if n is not None else 'unknown')
+                if n is not None and n[8] in ('ArrayRow', 'thmenv'):
+                    # narrow keys for two known findings: they hold for one renderer family each
+                    key += ':' + ('xhtml' if case['cfg']['renderer'] == 'xhtml' else 'html5')
                 return (key, 'in %s: href=%r, but %s has no element with id %r (the identifier belongs to %s)' % (name, href, target, frag, what))
     # (c) a resolved reference shows the number of its target
     urls = dict((s, u) for s, u in rec['urls'])
